@@ -71,6 +71,21 @@ Theorem C16_errors :
 Proof. exact errors_only_ValueError. Qed.
 Print Assumptions C16_errors.
 
+(* The serialiser under the guard: on every heap whose stored references all point to smaller indices
+   (topologically ordered = acyclic object graph; the harness' acyclic stream is of this form) and
+   whose scalar cells hold scalars, serialize terminates from every root with JSON that has no
+   null-valued key (the result type is JSON, so it is serialisable), with the recursion budget
+   2*|heap|+4 — no bound on the heap. *)
+Theorem C16_serializer_partial : forall h, ranked h = true -> scalars_ok h = true ->
+  forall r, (r < length h)%nat -> serializer_ok (serialize_top h r).
+Proof. exact serializer_top_partial. Qed.
+Print Assumptions C16_serializer_partial.
+
+Theorem C16_serializer_guard_nonvacuous : ranked h_demo = true /\ scalars_ok h_demo = true /\
+  serialize_top h_demo 4 = Ok (JObj [([97], JObj [([108], JArr [JInt 3; JNull])]); ([98], JInt 3)]).
+Proof. exact h_demo_ok. Qed.
+Print Assumptions C16_serializer_guard_nonvacuous.
+
 (* F16a: the full statement "the serialiser terminates on every object graph" is false: on the heap
    with two dataclass instances referencing each other the result is a RecursionError for every
    recursion budget. *)
